@@ -500,6 +500,83 @@ theorem C17_truncation (b : SB) (s : List Nat) (h : Inv b) :
   intro hf
   rw [append_text b s h, specText_fixed, hf]; simp
 
+theorem errno_ite (c : Prop) [Decidable c] (a b : SB) (e : Bool) (ha : c → a.errno = e) (hb : ¬ c → b.errno = e) :
+    (if c then a else b).errno = e := by
+  split
+  · rename_i h; exact ha h
+  · rename_i h; exact hb h
+
+/-- the formatting stage signals truncation exactly when the formatted text does not fit a fixed array -/
+theorem formatOut_errno (b : SB) (out : List Nat) (h : Inv b) : (b.formatOut out).errno = (b.errno || specCut b out) := by
+  have hb := h.buf
+  have happ := append_errno b out h
+  rcases b with ⟨kind, text, cap, errno, viol⟩
+  rcases kind with _ | own | dyn
+  · have hc : specCut ⟨.sbo, text, cap, errno, viol⟩ out = false := by simp [specCut, isFixed]
+    rw [hc] at happ ⊢
+    simp only [SB.formatOut, SB.free, SB.size, SB.store, SB.maxIdx, SboCap]
+    (repeat' (refine errno_ite _ _ _ _ (fun _ => ?_) (fun _ => ?_))) <;> first | exact happ | rfl | simp [SB.store]
+  · have hc : specCut ⟨.str own, text, cap, errno, viol⟩ out = false := by simp [specCut, isFixed]
+    rw [hc] at happ ⊢
+    simp only [SB.formatOut, SB.free, SB.size, SB.store, SB.maxIdx]
+    (repeat' (refine errno_ite _ _ _ _ (fun _ => ?_) (fun _ => ?_))) <;> first | exact happ | rfl | simp [SB.store]
+  · have hle : text.length ≤ cap := hb dyn rfl
+    cases dyn with
+    | true =>
+      have hc : specCut ⟨.buf true, text, cap, errno, viol⟩ out = false := by simp [specCut, isFixed]
+      rw [hc] at happ ⊢
+      simp only [SB.formatOut, SB.free, SB.size, SB.store, SB.maxIdx]
+      (repeat' (refine errno_ite _ _ _ _ (fun _ => ?_) (fun _ => ?_))) <;> first | exact happ | rfl | (congr 1; apply decide_eq_decide.mpr; omega) | (simp_all [SB.store]; first | omega | (congr 1; apply decide_eq_decide.mpr; omega) | skip)
+    | false =>
+      have hc : specCut ⟨.buf false, text, cap, errno, viol⟩ out = decide (text.length + out.length > cap) := by simp [specCut, isFixed]
+      rw [hc] at happ ⊢
+      simp only [SB.formatOut, SB.free, SB.size, SB.store, SB.maxIdx]
+      (repeat' (refine errno_ite _ _ _ _ (fun _ => ?_) (fun _ => ?_))) <;> first | exact happ | rfl | (congr 1; apply decide_eq_decide.mpr; omega) | (simp_all [SB.store]; first | omega | (congr 1; apply decide_eq_decide.mpr; omega) | skip)
+
+/-- **truncation of formatted appends**: `appendFormat` (literal prefix + one conversion) signals ERANGE exactly when prefix plus
+    formatted text do not fit a fixed caller array; the other kinds never signal it. -/
+theorem C17_format_truncation (b : SB) (pre out : List Nat) (hasSpec : Bool) (h : Inv b) :
+    (b.appendFormat pre out hasSpec).errno =
+      (b.errno || (isFixed b && decide (b.text.length + pre.length + (if hasSpec then out.length else 0) > b.cap))) := by
+  unfold SB.appendFormat
+  have hk := append_kind b pre
+  have hbuf := h.buf
+  -- the state after the literal prefix
+  have hpre : ∀ b1, b1 = (if pre.isEmpty then b else b.append pre) → Inv b1 ∧ isFixed b1 = isFixed b ∧ b1.cap = b.cap ∧
+      b1.errno = (b.errno || specCut b pre) ∧ b1.text = specText b pre := by
+    intro b1 hb1
+    by_cases hp : pre.isEmpty = true
+    · have : pre = [] := by simpa using hp
+      subst this
+      simp only [List.isEmpty_nil, ↓reduceIte] at hb1
+      subst hb1
+      refine ⟨h, rfl, rfl, by simp [specCut]; intro _ hgt; have := hbuf false (by simpa [isFixed] using ‹isFixed b1 = true›); omega, ?_⟩
+      simp only [specText, List.append_nil]
+      split
+      · rename_i hf; exact (List.take_of_length_le (hbuf false (by simpa [isFixed] using hf))).symm
+      · rfl
+    · simp only [hp, Bool.false_eq_true, ↓reduceIte] at hb1
+      subst hb1
+      exact ⟨append_inv b pre h, hk.1, hk.2, append_errno b pre h, append_text b pre h⟩
+  obtain ⟨hi1, hf1, hc1, he1, ht1⟩ := hpre _ rfl
+  by_cases hs : hasSpec = true
+  · simp only [hs, Bool.not_true, Bool.false_eq_true, ↓reduceIte]
+    rw [formatOut_errno _ out hi1, he1]
+    simp only [specCut, hf1, hc1, ht1, specText]
+    cases hfx : isFixed b with
+    | false => simp
+    | true =>
+      have hle := hbuf false (by simpa [isFixed] using hfx)
+      simp only [Bool.true_and, ↓reduceIte, List.length_take, List.length_append]
+      by_cases h1 : b.text.length + pre.length > b.cap
+      · have : min b.cap (b.text.length + pre.length) = b.cap := by omega
+        simp [h1]; omega
+      · have : min b.cap (b.text.length + pre.length) = b.text.length + pre.length := by omega
+        simp [h1, this]
+  · have hs' : hasSpec = false := by simpa using hs
+    simp only [hs', Bool.not_false, ↓reduceIte, Nat.add_zero]
+    rw [he1]; rfl
+
 /-! non-vacuity -/
 example : (runSB (mkBuf 5 false) [.append [97, 98, 99], .format [100] [101, 102] true, .num (-7)]).text = [97, 98, 99, 100] := by decide
 example : (runSB mkSbo [.append (List.replicate 63 120), .format [] [65] true]).kind = .str true := by decide
